@@ -3,8 +3,8 @@ from pyvc.bounded import run_samplers
 
 PROPERTY = "C16"
 LEVEL = "other"
-CONTRACT_MODULES = ["contracts.coordinates_c07", "contracts.coordinates_c13", "contracts.blocks_c08", "contracts.base_utils", "contracts.neighbors_c15", "contracts.hull_c16"]
-TARGETS = ["verde.mask:convexhull_mask", "verde.mask:_get_grid_coordinates", "verde.projections:project_grid", "contracts.hull_c16:project_grid_case"]
+CONTRACT_MODULES = ["contracts.coordinates_c07", "contracts.coordinates_c13", "contracts.blocks_c08", "contracts.base_utils", "contracts.neighbors_c15", "contracts.grids_c18", "contracts.hull_c16"]
+TARGETS = ["verde.mask:convexhull_mask", "verde.mask:_get_grid_coordinates", "verde.projections:project_grid", "C16:wiring:verde.projections:project_grid", "contracts.hull_c16:project_grid_case"]
 MIN_OBLIGATIONS = {"quick": 30, "thorough": 30}
 EXPLANATION = (
     "MIXED, claimed as 'other'. Deductive (relative to the assumed contract 'Delaunay.find_simplex != -1 <=> inside the hull of the "
